@@ -4,7 +4,7 @@ from ._famprop import make
 
 
 def FAMS(tier):
-    return ["W", "WO", "WS", "WM", "U", "LONG"] + (["E1", "D"] if tier == "thorough" else [])
+    return ["W", "WO", "WS", "WM", "WU", "U", "H", "LONG"] + (["E1", "D"] if tier == "thorough" else [])
 
 
 run, replay = make(
